@@ -5,9 +5,13 @@ KeysInt == {"i0", "i1", "i2", "i3", "i4", "ib"}
 AliasInt == [f2 |-> "i2", fm0 |-> "i0", fb |-> "ib"]
 IntValInt == [i0 |-> 0, i1 |-> 1, i2 |-> 2, i3 |-> 3, i4 |-> 4, ib |-> 1073741824]
 KeysMix == {"i1", "i2", "f25", "sa", "sl", "bt", "tk", "fk"}
+(* string keys of 7, 8 and 9 bytes that differ only in their last byte *)
+KeysStr == {"s7a", "s7b", "s8a", "s8b", "s9a", "s9b", "sa", "i1"}
+AliasStr == [f1 |-> "i1"]
+IntValStr == [i1 |-> 1]
 AliasMix == [f2 |-> "i2"]
 IntValMix == [i1 |-> 1, i2 |-> 2]
-KeysAll == {"i0", "i1", "i2", "i3", "i4", "ib", "f25", "sa", "sb", "sl", "bt", "tk", "fk"}
+KeysAll == {"i0", "i1", "i2", "i3", "i4", "ib", "f25", "sa", "sb", "sl", "bt", "tk", "fk", "s7a", "s7b", "s8a", "s8b", "s9a", "s9b"}
 AliasAll == [f2 |-> "i2", fm0 |-> "i0", fb |-> "ib", f3 |-> "i3"]
 (* a family with many integer keys, to drive the array part through growth, shrinking and migration *)
 KeysBig == {"n" \o ToString(i) : i \in 1..40} \cup {"i0", "ib", "f25", "sa", "tk"}
@@ -15,5 +19,5 @@ AliasBig == [f2 |-> "n2", fm0 |-> "i0", fb |-> "ib", f3 |-> "n3"]
 IntValBig == [k \in {"n" \o ToString(i) : i \in 1..40} \cup {"i0", "ib"} |->
                 IF k = "i0" THEN 0 ELSE IF k = "ib" THEN 1073741824
                 ELSE CHOOSE i \in 1..40 : k = "n" \o ToString(i)]
-AllTravs == {"plain", "update", "clear", "clearothers", "updateothers"}
+AllTravs == {"plain", "update", "rawupdate", "clear", "clearothers", "updateothers"}
 =============================================================================
